@@ -124,7 +124,10 @@ def cheap_setting(m, rng):
         return base + gen.salt(rng, 4)
     if m in ("yescrypt", "gost_yescrypt"):
         return base + gen.ysalt(rng, rng.choice((4, 8, 22)))
-    return base + gen.salt(rng, rng.choice((4, 8)))
+    # salt lengths up to each method's documented maximum (md5crypt 8, sha2 16, sha1crypt 64; sunmd5 has none)
+    maxlen = {"md5crypt": (4, 8), "sha256crypt": (4, 8, 16), "sha512crypt": (4, 8, 16), "sha1crypt": (4, 8, 17, 64),
+              "sunmd5": (4, 8, 9, 16, 31), "scrypt": (4, 8, 22)}.get(m, (4, 8))
+    return base + gen.salt(rng, rng.choice(maxlen))
 
 
 def cost_span(m, s):
@@ -1571,7 +1574,8 @@ def c02_corpus(rng, E, quick, fixed):
             sets = ["$1$" + gen.salt(rng, n) for n in (0, 1, 4, 7, 8)]
         elif m == "sunmd5":
             sets = ["$md5$" + gen.salt(rng, 8), "$md5," + gen.salt(rng, 4) + "$", "$md5$rounds=1$" + gen.salt(rng, 8) + "$",
-                    "$md5,rounds=300$" + gen.salt(rng, 1) + "$$", "$md5$"]
+                    "$md5,rounds=300$" + gen.salt(rng, 1) + "$$", "$md5$",
+                    "$md5$rounds=1$" + gen.salt(rng, 9), "$md5$rounds=2$" + gen.salt(rng, 16) + "$", "$md5,rounds=1$" + gen.salt(rng, 40) + "$$"]
         elif m == "sha1crypt":
             sets = ["$sha1$%d$%s" % (it, gen.salt(rng, n)) for it, n in ((1, 8), (2, 1), (7, 64), (24, 16), (100, 12))]
             sets += ["$sha1$0$" + gen.salt(rng, 8), "$sha1$$" + gen.salt(rng, 8), "$sha1$00$" + gen.salt(rng, 5)]   # zero / empty iteration field
@@ -2032,6 +2036,9 @@ def c20(ctx):
     else:
         facts = json.loads(subprocess.run([os.path.join(ctx.dir, "abiprobe")], capture_output=True, text=True).stdout)
         facts["exports"] = exports
+    mk = open(os.path.join(vlib.REPO, "Makefile")).read() if os.path.exists(os.path.join(vlib.REPO, "Makefile")) else ""
+    mm = re.search(r"^COMPAT_ABI = (\S+)", mk, re.M)
+    facts["compat_abi"] = mm.group(1) if mm else "yes"
     ff, vf = os.path.join(ctx.dir, "abifacts.json"), os.path.join(ctx.dir, "abiverdict.json")
     json.dump(facts, open(ff, "w"))
     res = ctx.tlc("Abi.tla", "Abi.cfg", env={"XCV_FACTS": ff, "XCV_VERDICT": vf}, workers=1, timeout=300)
@@ -2106,6 +2113,12 @@ def c19_script(rng):
             cmds.append("checksalt %s" % hx(s))
         cmds.append("crypt - %s %s" % (hx(b"pw"), hx(sets[0])))
         cmds.append("crypt_ra 0 %s %s" % (hx(b"pw"), hx(sets[0])))
+        # the same requests on junk-filled, misaligned objects: a method that is reached directly in one selection and
+        # only through a forwarding method in another (descrypt behind bigcrypt) must not depend on the scratch contents
+        for ph in (b"abc", b"short", b"a-phrase-longer-than-eight"):
+            for fill in (2, 3):
+                cmds.append("obj 1 %d %d" % (rng.randrange(1, 16), fill))
+                cmds.append("%s 1 %s %s" % (rng.choice(("crypt_rn", "crypt_r")), hx(ph), hx(sets[0])))
         rb = bytes(rng.randrange(256) for _ in range(24))
         for c in (0, CHEAP_COUNT.get(m, [0])[0], 99):
             g.append(gs_cmd("gensalt_rn", gen.PREFIX[m], c, rb))
@@ -2161,7 +2174,11 @@ def c19(ctx):
             ctx.violation("C19", "the library does not build for this selection", {"selection": sorted(sel), "log": ce})
             continue
         if sorted(ce["E"]) != sorted(sel):
-            raise Broken("configuration mismatch: asked %s got %s" % (sel, ce["E"]))
+            # the generated crypt-hashes.h switches on a method that was not selected (or drops a selected one)
+            ctx.violation("C19", "[%s] the generated configuration enables %s" % (",".join(sorted(sel)), sorted(ce["E"])),
+                          {"selection": sorted(sel), "INCLUDE_macros": sorted(ce["E"])})
+            ce = dict(ce)
+            ce["E"] = sorted(sel)          # the calls below are judged against what was asked for
         before = len(ctx.violations)
         evs = [ce] + [dict(e) for e in full_x] + ex
         annotate(evs)
